@@ -712,6 +712,24 @@ func (c *Ctx) accessPathD(v ssa.Value, fr *Frame, d int) string {
 	case *ssa.TypeAssert:
 		return c.accessPathD(x.X, fr, d+1)
 	case *ssa.Extract:
+		if sel, ok := x.Tuple.(*ssa.Select); ok {
+			// (index, recvOk, received values of the receive cases in order)
+			switch x.Index {
+			case 0:
+				return "select#index"
+			case 1:
+				return "select#ok"
+			}
+			n := 2
+			for _, st := range sel.States {
+				if st.Dir == types.RecvOnly {
+					if n == x.Index {
+						return "?<-" + c.accessPathD(st.Chan, fr, d+1)
+					}
+					n++
+				}
+			}
+		}
 		return c.accessPathD(x.Tuple, fr, d+1) + fmt.Sprintf("#%d", x.Index)
 	case *ssa.Const:
 		if x.Value == nil {
